@@ -111,6 +111,27 @@ def make(cfg):
         if cfg["combiner"] == "okres":
             comb = ([("ok", nt), ("res", nt * w)], lambda m, res: {"ok": Cat(s for s, _ in res), "res": Cat(r.r for _, r in res)})
         d = MethodTryProduct.create([t.iface for t in ts], comb)
+        if cfg.get("contend"):
+            # target 0 is also called by an independent transaction: the product's call of it can lose arbitration
+            from amaranth import Elaboratable, Signal
+            from transactron import TModule, Transaction
+
+            class Contend(Elaboratable):
+                def __init__(self):
+                    self.tp = d
+                    self.dreq, self.darg, self.drun = Signal(name="dreq"), Signal(w, name="darg"), Signal(name="drun")
+
+                def elaborate(self, platform):
+                    m = TModule()
+                    m.submodules.tp = self.tp
+                    with Transaction(name="direct").body(m, ready=self.dreq):
+                        m.d.comb += self.drun.eq(1)
+                        ts[0].iface(m, d=self.darg)
+                    return m
+
+            c = Contend()
+            return Harness(c, {"m": d.method}, mocks={f"t{i}": t for i, t in enumerate(ts)}, inputs={"dreq": c.dreq, "darg": c.darg},
+                           observe=lambda c: {"drun": c.drun})
         return Harness(d, {"m": d.method}, mocks={f"t{i}": t for i, t in enumerate(ts)})
     if k == "nonexcl":
         t = Adapter(i=[("d", w)], o=[("r", w)])
@@ -147,6 +168,8 @@ def configs(tier, seed):
                 out.append(dict(kind="product", w=w, nt=nt, combiner=cb))
             for cb in ("default", "okres"):
                 out.append(dict(kind="tryproduct", w=w, nt=nt, combiner=cb))
+            if nt == 2:
+                out.append(dict(kind="tryproduct", w=w, nt=nt, combiner="okres", contend=True))
         for nc in (1, 2) if q else (1, 2, 3):
             out.append(dict(kind="nonexcl", w=w, callers=nc))
     if q:
@@ -277,12 +300,22 @@ def spec_onecycle(cfg, o):
         nt = cfg["nt"]
         T = [f"t{i}" for i in range(nt)]
         ob.append(("method runs whenever called (never blocked by targets)", o.done("m") == o.en("m")))
+        drun = (o.sig("drun") == 1) if cfg.get("contend") else z3.BoolVal(False)
         for i, t in enumerate(T):
-            ob.append((f"{t} is called iff the method runs and {t} is ready", o.done(t) == z3.And(o.done("m"), o.en(t))))
-            ob.append((f"{t} receives the argument", z3.Implies(o.done(t), o.out(t) == o.arg("m"))))
+            byprod = z3.And(o.done(t), z3.Not(drun)) if i == 0 else o.done(t)  # called on behalf of the product (not by the competitor)
+            if cfg.get("contend") and i == 0:
+                ob.append((f"{t} is called iff it is ready and the product method or the competing transaction calls it",
+                           z3.And(z3.Implies(o.done(t), o.en(t)), z3.Implies(z3.And(o.en(t), o.done("m")), o.done(t)))))
+                ob.append((f"{t} receives the argument of whoever called it", z3.Implies(o.done(t), o.out(t) == z3.If(drun, o.sig("darg"), o.arg("m")))))
+                ob.append(("the competing transaction runs only when it requests and the target is ready", z3.Implies(drun, z3.And(o.sig("dreq") == 1, o.en(t)))))
+            else:
+                ob.append((f"{t} is called iff the method runs and {t} is ready", o.done(t) == z3.And(o.done("m"), o.en(t))))
+                ob.append((f"{t} receives the argument", z3.Implies(o.done(t), o.out(t) == o.arg("m"))))
             if cfg["combiner"] == "okres":
-                ob.append((f"success bit {i} reports whether {t} was called", z3.Implies(o.done("m"), bit(o.out("m", "ok"), i) == o.done(t))))
+                ob.append((f"success bit {i} reports whether {t} was called on behalf of the product", z3.Implies(o.done("m"), bit(o.out("m", "ok"), i) == byprod)))
                 ob.append((f"combiner sees the result of {t}", z3.Implies(o.done(t), z3.Extract((i + 1) * w - 1, i * w, o.out("m", "res")) == o.arg(t))))
+        if cfg.get("contend"):
+            wit["target 0 ready but taken by the competing transaction while the product runs"] = z3.And(o.done("m"), drun, o.en("t0"))
         wit["no target ready, method still runs"] = z3.And(o.done("m"), *[z3.Not(o.en(t)) for t in T])
         wit["all targets called"] = z3.And(*[o.done(t) for t in T])
         if nt > 1:
